@@ -601,6 +601,18 @@ Theorem C10_occurrence_accepted : forall c idn s a raw st,
 Proof. exact react_core_succeeds. Qed.
 Print Assumptions C10_occurrence_accepted.
 
+(** ... and conversely, by kind: a rejected command-line occurrence breaks the rule its kind names -- a count kind: (a);
+    ArgumentConflict: the argument is Set-like, does not override itself and is already stored, (d); a value kind: (b);
+    DisplayHelp / DisplayVersion: the action does not store, (h) *)
+Theorem C10_occurrence_rejection_names_rule : forall c idn a raw st e st',
+  wf_m (mt st) -> react_core c idn SCmdLine a raw None st = RErr e st' ->
+  (In (e_kind e) [EInvalidValue; EWrongNumberOfValues; ETooFewValues; ETooManyValues] /\ ~ count_ok_occ a raw)
+  \/ (e_kind e = EArgumentConflict /\ set_family a = true /\ self_override c a = false /\ mt_contains (mt st) (a_id a) = true)
+  \/ (In (e_kind e) [EInvalidUtf8; EInvalidValue; EValueValidation] /\ ~ values_ok a raw)
+  \/ (In (e_kind e) [EDisplayHelp; EDisplayVersion] /\ storing a = false).
+Proof. exact react_core_rejection_names_rule. Qed.
+Print Assumptions C10_occurrence_rejection_names_rule.
+
 (** ONE LEVEL: the fold of [react] over the occurrences succeeds, and so do the environment / default / validation
     phases, with anything ([x]) in the subcommand slot *)
 Theorem C10_level_accepted : forall c os x, assert_app c = true -> no_env c = true -> pos_indexed_b c = true ->
